@@ -49,9 +49,13 @@ func acyclicEdgeSets(n int) [][][2]int {
 // history draws a sequence of Get / GetInContext / GetTaggedBy operations.
 func drawHistory(rt *rapid.T, c cfg.Config, maxLen int) []fx.Op {
 	var names, tags []string
+	var getters [][2]string // getter, service
 	seen := map[string]bool{}
 	for _, s := range c.Services {
 		names = append(names, s.Name)
+		if s.Getter != nil && !s.IsTodo() && exportedName(*s.Getter) {
+			getters = append(getters, [2]string{*s.Getter, s.Name})
+		}
 		for _, t := range s.Tags {
 			if !seen[t.Name] {
 				seen[t.Name] = true
@@ -65,6 +69,16 @@ func drawHistory(rt *rapid.T, c cfg.Config, maxLen int) []fx.Op {
 		ctx := rapid.SampledFrom([]string{"", "", "A", "A", "B"}).Draw(rt, "ctx")
 		if len(tags) > 0 && rapid.IntRange(0, 4).Draw(rt, "tagged?") == 0 {
 			ops = append(ops, fx.Op{Op: "tagged", ID: rapid.SampledFrom(tags).Draw(rt, "tag"), Ctx: ctx})
+			continue
+		}
+		if len(getters) > 0 && rapid.IntRange(0, 3).Draw(rt, "getter?") == 0 {
+			// the generated accessors are entry points too: G / GInContext / MustG / MustGInContext
+			g := rapid.SampledFrom(getters).Draw(rt, "getter")
+			if rapid.Bool().Draw(rt, "must") {
+				ops = append(ops, fx.Op{Op: "must", ID: "Must" + g[0], Tag: g[1], Ctx: ctx})
+			} else {
+				ops = append(ops, fx.Op{Op: "getter", ID: g[0], Tag: g[1], Ctx: ctx})
+			}
 			continue
 		}
 		ops = append(ops, fx.Op{Op: "get", ID: rapid.SampledFrom(names).Draw(rt, "svc"), Ctx: ctx})
